@@ -57,6 +57,10 @@ GInit ==
   \* tokens around MaxTokenLen: alone in a value, between normal tokens, in one value of a multi-valued field
   /\ \A n \in {MaxTokenLen, MaxTokenLen + 1, 70000} : \A place \in {"alone", "between", "multi"} : \A o \in {"pos", "frq", "bas"} :
        PrintT(<<"CASE", ToJson([what |-> "longtok", bytes |-> n, place |-> place, opt |-> o, dropped |-> n > MaxTokenLen])>>)
+  \* position gaps that need a fifth byte: in the tail of short and long posting lists, between two values of a
+  \* multi-valued field, and in a document with more than BlockLen positions of the term
+  /\ \A v \in BigPositionGaps : \A ll \in {3, BlockLen + 72} : \A o \in {"pos", "nn"} : \A place \in {"tail", "values", "many"} :
+       PrintT(<<"CASE", ToJson([what |-> "vintb", kind |-> "biggap", value |-> v, listlen |-> ll, opt |-> o, place |-> place])>>)
 GNext == done' = TRUE /\ UNCHANGED ivars
 GSpec == GInit /\ [][GNext]_<<done, ivars>>
 =============================================================================
